@@ -14,7 +14,10 @@ from ..worlds import rails_run as RR
 from .base import Outcome
 from .c01 import RailsProp
 
-MODES = [("v1:dialog", 3), ("v1:single_call", 2), ("v1:multistep", 2), ("v1:rails_only", 1), ("v1:passthrough", 1), ("v2:v2_llm", 3)]
+MODES = [("v1:dialog", 3), ("v1:single_call", 2), ("v1:multistep", 2), ("v1:rails_only", 1), ("v1:passthrough", 1), ("v2:v2_llm", 3),
+         # the same pipelines with the caller consuming the reply through a streaming handler (what stream_async does): the
+         # hostile text then also passes the handlers that generation.py configures (buffering, patterns, hand-over)
+         ("v1:single_call+stream", 1), ("v1:dialog+stream", 1)]
 V2_TURNS = ["hi", "hello there", "value please", "paraphrase please", "what is the capital of France", "hello again"]
 # "generate never returns" is decided by a deterministic work bound (function entries + jumps counted through
 # sys.monitoring), not by a wall clock: a fault run may use WORK_FACTOR x the work of the scenario's fault-free run,
@@ -64,6 +67,8 @@ class C17(RailsProp):
 
         m = os.environ.get("C17_MODE") or d.weighted(MODES, "mode")
         colang, mode = m.split(":")
+        streaming = mode.endswith("+stream")
+        mode = mode.replace("+stream", "")
         if colang == "v1":
             sc = convo.gen_spec(d, colang="1.0", max_turns=3, modes=[(mode, 1)], allow_shipped=False)
             sc["in_rails"] = sc["in_rails"][:1]
@@ -82,6 +87,10 @@ class C17(RailsProp):
             texts = [d.choice(V2_TURNS, "t", i) for i in range(n)]
             sc = {"colang": "2.x", "mode": "v2_llm", "in_rails": [], "out_rails": [], "exceptions": False, "verdicts": {}, "intents": {},
                   "convs": [{"turns": [{"tok": "#c0t%d#" % i, "text": t} for i, t in enumerate(texts)]}], "lat_seed": 0, "lat_mode": "zero"}
+        if streaming:
+            sc["streaming"] = True
+            sc["out_rails"] = []
+            sc["chunk_seed"] = d.randint(0, 1 << 30, "chunkseed")
         sc["hostile"] = "enumerate"
         sc["corpus_seed"] = d.randint(0, 1 << 30, "cseed")
         sc["per_position"] = 3 if tier == "quick" else len(corpus.HOSTILE) + 4
@@ -108,12 +117,16 @@ class C17(RailsProp):
             except control.StepBudgetExceeded:
                 self._hang_kind = "work budget of %d function entries + jumps exceeded" % budget
                 break
+            except control.SimDeadlock as e:
+                where = next((str(t) for t in e.parked if "generate_async" in str(t)), "?")
+                self._hang_kind = "nothing is scheduled on the virtual-time loop any more while generate_async has not returned; parked at ...%s" % where[-160:]
+                break
             except control.RunTimeout:
                 self._hang_kind = "wall-clock backstop of %.0f s fired twice (loop outside Python code)" % WALL_BACKSTOP_S
         return None, None, True
 
     def judge(self, sc, fault, records, calls, hang, base_replies, out):
-        mode = ("v1:" if sc["colang"] == "1.0" else "v2:") + sc["mode"]
+        mode = ("v1:" if sc["colang"] == "1.0" else "v2:") + sc["mode"] + ("+stream" if sc.get("streaming") else "")
         pos, name, text = fault
         task = "?"
         if calls is not None and pos < len(calls):
@@ -156,7 +169,7 @@ class C17(RailsProp):
     def execute(self, sc):
         out = Outcome()
         tr = Trace(sc.get("run_seed"))
-        mode = ("v1:" if sc["colang"] == "1.0" else "v2:") + sc["mode"]
+        mode = ("v1:" if sc["colang"] == "1.0" else "v2:") + sc["mode"] + ("+stream" if sc.get("streaming") else "")
         self._base_work = 0
         self._tight = 0
         records, calls, hang = self.run_one(sc, None, tr)
@@ -255,9 +268,87 @@ def _run(sc, patch, tr):
 
     R.RailsWorld.__init__ = init
     try:
+        if sc.get("streaming"):
+            return _run_streaming(sc, tr)
         return RR.run_conversations(sc, tr=tr, max_iterations=300000)
     finally:
         R.RailsWorld.__init__ = orig
+
+
+def _run_streaming(sc, tr):
+    """run_conversations for one Colang 1.0 conversation whose replies are consumed through a streaming handler."""
+    import asyncio
+
+    from nemoguardrails.streaming import StreamingHandler
+
+    from ..kernel import seams
+    from ..kernel.loop import run_sim
+
+    holder = {}
+
+    def clock():
+        lp = holder.get("loop")
+        return lp.time() if lp is not None else 0.0
+
+    ctx = seams.SimContext(clock=clock)
+    seams.install(ctx)
+    seams.reset_run_state(ctx)
+    try:
+        world = R.RailsWorld(sc, loop_clock=clock, latency=lambda call: 0.0, action_latency=lambda kind, name, n: 0.0)
+        cd = Draws(sc.get("chunk_seed", 0))
+
+        def chunker(call, reply):
+            cuts = [i for i in range(1, min(len(reply), 400)) if cd.unit("cut", call.n, i) < 0.2]
+            return [reply[a:b] for a, b in zip([0] + cuts, cuts + [len(reply)])]
+
+        world.llm_world.chunker = chunker
+        records = []
+
+        async def main(loop):
+            holder["loop"] = loop
+            msgs = []
+            for t, turn in enumerate(sc["convs"][0]["turns"]):
+                rec = RR.TurnRecord(0, t, turn["tok"], turn["text"])
+                h0 = len(world.history)
+                msgs.append({"role": "user", "content": turn["text"]})
+                h = StreamingHandler()
+                got = []
+
+                async def consume(hh=h, g=got):
+                    async for c in hh:
+                        g.append(c)
+
+                ct = asyncio.ensure_future(consume())
+                st, res = await world.generate("c0", messages=msgs, streaming_handler=h)
+                await asyncio.sleep(0.5)
+                if not ct.done():
+                    ct.cancel()
+                    try:
+                        await ct
+                    except asyncio.CancelledError:
+                        pass
+                rec.events = [e for e in world.history[h0:] if e["kind"] != "request"]
+                rec.status = st
+                if st == "ok":
+                    msg = res.response[0] if hasattr(res, "response") and isinstance(res.response, list) else res
+                    rec.raw = msg
+                    rec.reply_role = msg.get("role") if isinstance(msg, dict) else None
+                    rec.reply = msg.get("content") if isinstance(msg, dict) else None
+                    if rec.reply_role == "assistant" and isinstance(rec.reply, str):
+                        msgs.append({"role": "assistant", "content": rec.reply})
+                else:
+                    rec.exc = res
+                    msgs.pop()
+                rec.streamed = "".join(x for x in got if isinstance(x, str))
+                records.append(rec)
+                if tr is not None:
+                    tr.log("turn", 0, t, st, rec.reply_role, rec.reply if isinstance(rec.reply, (str, type(None))) else repr(rec.reply), repr(rec.exc) if rec.exc else None)
+            return loop.time()
+
+        run_sim(main, start_time=1000.0, max_iterations=300000)
+        return world, records
+    finally:
+        seams.uninstall()
 
 
 PROP = C17()
